@@ -35,6 +35,7 @@ def parse(data, strict=True):
     last_tid = b''
     rec_at = {}           # pos -> PRec
     last_pos = {}         # oid -> pos of latest record
+    prev_txn_pos = {}     # oid -> pos of latest record in an earlier txn
     while pos < n:
         if pos + THDR.size > n:
             raise FormatError('truncated transaction header at %d' % pos)
@@ -86,7 +87,8 @@ def parse(data, strict=True):
                 r.data = None
                 nxt = body + 8
             if strict:
-                if prev != last_pos.get(oid, 0):
+                if prev != last_pos.get(oid, 0) and \
+                        prev != prev_txn_pos.get(oid, 0):
                     raise FormatError(
                         'prev pointer %d != previous record %d of oid at %d'
                         % (prev, last_pos.get(oid, 0), q))
@@ -105,6 +107,8 @@ def parse(data, strict=True):
         if rl != tlen:
             raise FormatError('redundant length %d != %d at %d'
                               % (rl, tlen, tend))
+        for r in t.recs:
+            prev_txn_pos[r.oid] = last_pos[r.oid]
         txns.append(t)
         pos = tend + 8
     if pos != n:
